@@ -126,13 +126,13 @@ theorem pcm_close (c : Conn) (n code : Nat) (text dbg : Bytes) :
     processChannelMethod c n 20 40 [.nat code, .bytes text] dbg =
       (match slotGet c n with
        | .ok slot =>
-        match sendReply (removeSlot c n) slot.lid (.err (.serverClosedChannel n code text)) with
-        | (c2, some e) => (dropSlotEnds c2 slot, some e)
+        match notifyConsumers (.serverClosedChannel n code text) (removeSlot c n) slot.consumers with
+        | (c2, some e) =>
+          ({ (dropSlotEnds c2 slot) with
+              nondet := (dropSlotEnds c2 slot).nondet || decide (slot.consumers.length > 1) }, some e)
         | (c2, none) =>
-          match notifyConsumers (.serverClosedChannel n code text) c2 slot.consumers with
-          | (c3, some e) =>
-            ({ (dropSlotEnds c3 slot) with
-                nondet := (dropSlotEnds c3 slot).nondet || decide (slot.consumers.length > 1) }, some e)
+          match sendReply c2 slot.lid (.err (.serverClosedChannel n code text)) with
+          | (c3, some e) => (dropSlotEnds c3 slot, some e)
           | (c3, none) => (dropSlotEnds (pushOut c3 (channelCloseOk n)) slot, none)
        | .error e => (c, some e)) := by
   unfold processChannelMethod
@@ -615,13 +615,14 @@ theorem dropSlotEnds_alloc (c : Conn) (s : Slot) : (dropSlotEnds c s).alloc = c.
   exact foldl_invariant (fun a : Conn => a.alloc = c.alloc) _
     (fun a x ha => by rw [dropConsTx_alloc]; exact ha) _ _ rfl
 
-/-- The state after a server-initiated close of channel `n` that could be fully reported. -/
+/-- The state after a server-initiated close of channel `n` that could be fully reported
+    (consumers first, then the channel's caller). -/
 def closedChannel (c : Conn) (n code : Nat) (text : Bytes) (slot : Slot) : Conn :=
   dropSlotEnds (pushOut
-    (notifyConsumers (.serverClosedChannel n code text)
-      (setLink (removeSlot c n) slot.lid { (getLink c slot.lid) with
+    (setLink (notifyConsumers (.serverClosedChannel n code text) (removeSlot c n) slot.consumers).1
+      slot.lid { (getLink c slot.lid) with
         replies := (getLink c slot.lid).replies ++ [.err (.serverClosedChannel n code text)] })
-      slot.consumers).1 (channelCloseOk n)) slot
+    (channelCloseOk n)) slot
 
 theorem pcm_close_ok {c : Conn} {n : Nat} (code : Nat) (text dbg : Bytes) {slot : Slot}
     (hslot : lookupN n c.slots = some slot)
@@ -631,20 +632,22 @@ theorem pcm_close_ok {c : Conn} {n : Nat} (code : Nat) (text dbg : Bytes) {slot 
       (closedChannel c n code text slot, none) := by
   rw [pcm_close, slotGet_some hslot]
   dsimp only
-  rw [sendReply_ok (c := removeSlot c n) halive hroom]
-  dsimp only
   have h := (notifyConsumers_ok (.serverClosedChannel n code text) slot.consumers
-    (setLink (removeSlot c n) slot.lid { (getLink c slot.lid) with
-        replies := (getLink c slot.lid).replies ++ [.err (.serverClosedChannel n code text)] }) hcons).1
+    (removeSlot c n) hcons).1
+  have hl := notifyConsumers_links (.serverClosedChannel n code text) (removeSlot c n) slot.consumers
   split
   · rename_i heq
     have h' := congrArg Prod.snd heq
     have h'' : some _ = none := h'.symm.trans h
     cases h''
-  · rename_i heq
-    have e := congrArg Prod.fst heq
-    dsimp only at e
+  · rename_i c2 heq
+    have e : c2 = (notifyConsumers (.serverClosedChannel n code text) (removeSlot c n)
+        slot.consumers).1 := (congrArg Prod.fst heq).symm
     subst e
+    have hg : getLink (notifyConsumers (.serverClosedChannel n code text) (removeSlot c n)
+        slot.consumers).1 slot.lid = getLink c slot.lid := (getLink_congr hl slot.lid).trans rfl
+    rw [sendReply_ok (c := (notifyConsumers (.serverClosedChannel n code text) (removeSlot c n)
+        slot.consumers).1) (by rw [hg]; exact halive) (by rw [hg]; exact hroom), hg]
     rfl
 
 /-- Frame facts about the fully reported close. -/
@@ -659,27 +662,25 @@ theorem closedChannel_spec (c : Conn) (n code : Nat) (text : Bytes) (slot : Slot
           ioAlive := false, fifo := [] } ∧
     ∀ lid, lid ≠ slot.lid → getLink (closedChannel c n code text slot) lid = getLink c lid := by
   unfold closedChannel
-  have s2 := same_notifyConsumers (.serverClosedChannel n code text)
-    (setLink (removeSlot c n) slot.lid { (getLink c slot.lid) with
-        replies := (getLink c slot.lid).replies ++ [.err (.serverClosedChannel n code text)] })
-    slot.consumers
-  have l2 := notifyConsumers_links (.serverClosedChannel n code text)
-    (setLink (removeSlot c n) slot.lid { (getLink c slot.lid) with
-        replies := (getLink c slot.lid).replies ++ [.err (.serverClosedChannel n code text)] })
-    slot.consumers
-  have a2 := notifyConsumers_alloc (.serverClosedChannel n code text)
-    (setLink (removeSlot c n) slot.lid { (getLink c slot.lid) with
-        replies := (getLink c slot.lid).replies ++ [.err (.serverClosedChannel n code text)] })
-    slot.consumers
+  have s2 := same_notifyConsumers (.serverClosedChannel n code text) (removeSlot c n) slot.consumers
+  have l2 := notifyConsumers_links (.serverClosedChannel n code text) (removeSlot c n) slot.consumers
+  have a2 := notifyConsumers_alloc (.serverClosedChannel n code text) (removeSlot c n) slot.consumers
   refine ⟨?_, ?_, ?_, ?_, ?_, ?_⟩
-  · rw [(same_dropSlotEnds _ _).st, pushOut_st, s2.st]; rfl
-  · rw [(same_dropSlotEnds _ _).slots, pushOut_slots, s2.slots]; rfl
-  · rw [dropSlotEnds_alloc, pushOut_alloc, a2]; rfl
-  · rw [(same_dropSlotEnds _ _).out, pushOut_out, s2.out, s2.sealed]; rfl
-  · rw [getLink_dropSlotEnds, if_pos rfl, getLink_pushOut, getLink_congr l2, getLink_setLink_self]
+  · rw [(same_dropSlotEnds _ _).st, pushOut_st]
+    exact s2.st
+  · rw [(same_dropSlotEnds _ _).slots, pushOut_slots]
+    exact s2.slots
+  · rw [dropSlotEnds_alloc, pushOut_alloc]
+    exact a2
+  · rw [(same_dropSlotEnds _ _).out, pushOut_out]
+    show (if (notifyConsumers (.serverClosedChannel n code text) (removeSlot c n) slot.consumers).1.sealed = true
+      then (notifyConsumers (.serverClosedChannel n code text) (removeSlot c n) slot.consumers).1.out
+      else (notifyConsumers (.serverClosedChannel n code text) (removeSlot c n) slot.consumers).1.out ++ _) = _
+    rw [s2.out, s2.sealed]; rfl
+  · rw [getLink_dropSlotEnds, if_pos rfl, getLink_pushOut, getLink_setLink_self]
   · intro lid hl
-    rw [getLink_dropSlotEnds_ne _ _ (Ne.symm hl), getLink_pushOut, getLink_congr l2,
-      getLink_setLink_ne _ (Ne.symm hl)]
+    rw [getLink_dropSlotEnds_ne _ _ (Ne.symm hl), getLink_pushOut,
+      getLink_setLink_ne _ (Ne.symm hl), getLink_congr l2]
     rfl
 
 theorem closedChannel_cqs (c : Conn) (n code : Nat) (text : Bytes) (slot : Slot)
@@ -689,11 +690,11 @@ theorem closedChannel_cqs (c : Conn) (n code : Nat) (text : Bytes) (slot : Slot)
       (lookupN k c.cqs).map (CQ.notified (.serverClosedChannel n code text)) := by
   intro k hk
   unfold closedChannel
-  rw [dropSlotEnds_cqs, if_pos hk, pushOut_cqs,
-    (notifyConsumers_ok (.serverClosedChannel n code text) slot.consumers
-      (setLink (removeSlot c n) slot.lid { (getLink c slot.lid) with
-        replies := (getLink c slot.lid).replies ++ [.err (.serverClosedChannel n code text)] })
-      hcons).2.2 hnodup k hk]
+  rw [dropSlotEnds_cqs, if_pos hk, pushOut_cqs]
+  show Option.map _ (lookupN k (notifyConsumers (.serverClosedChannel n code text) (removeSlot c n)
+    slot.consumers).1.cqs) = _
+  rw [(notifyConsumers_ok (.serverClosedChannel n code text) slot.consumers
+      (removeSlot c n) hcons).2.2 hnodup k hk]
   show Option.map _ (Option.map _ (lookupN k c.cqs)) = _
   cases lookupN k c.cqs <;> rfl
 
@@ -707,37 +708,37 @@ theorem pcm_close_frame {c : Conn} {n : Nat} (code : Nat) (text dbg : Bytes) {sl
       getLink (processChannelMethod c n 20 40 [.nat code, .bytes text] dbg).1 lid = getLink c lid := by
   rw [pcm_close, slotGet_some hslot]
   dsimp only
-  have s1 := same_sendReply (removeSlot c n) slot.lid (.err (.serverClosedChannel n code text))
-  have a1 := sendReply_alloc (removeSlot c n) slot.lid (.err (.serverClosedChannel n code text))
-  have l1 := fun lid (hl : lid ≠ slot.lid) =>
-    getLink_sendReply_ne (removeSlot c n) (Ne.symm hl) (.err (.serverClosedChannel n code text))
+  have s1 := same_notifyConsumers (.serverClosedChannel n code text) (removeSlot c n) slot.consumers
+  have a1 := notifyConsumers_alloc (.serverClosedChannel n code text) (removeSlot c n) slot.consumers
+  have l1 := notifyConsumers_links (.serverClosedChannel n code text) (removeSlot c n) slot.consumers
   split
   · rename_i c2 e heq
     rw [heq] at s1 a1 l1
     dsimp only at s1 a1 l1
     refine ⟨?_, ?_, ?_⟩
-    · rw [(same_dropSlotEnds _ _).st, s1.st]; rfl
-    · rw [dropSlotEnds_alloc, a1]; rfl
+    · show (dropSlotEnds c2 slot).st = _
+      rw [(same_dropSlotEnds _ _).st, s1.st]; rfl
+    · show (dropSlotEnds c2 slot).alloc = _
+      rw [dropSlotEnds_alloc, a1]; rfl
     · intro lid hl
-      rw [getLink_dropSlotEnds_ne _ _ (Ne.symm hl), l1 lid hl]; rfl
+      show getLink (dropSlotEnds c2 slot) lid = getLink c lid
+      rw [getLink_dropSlotEnds_ne _ _ (Ne.symm hl), getLink_congr l1]; rfl
   · rename_i c2 heq
     rw [heq] at s1 a1 l1
     dsimp only at s1 a1 l1
-    have s2 := same_notifyConsumers (.serverClosedChannel n code text) c2 slot.consumers
-    have a2 := notifyConsumers_alloc (.serverClosedChannel n code text) c2 slot.consumers
-    have l2 := notifyConsumers_links (.serverClosedChannel n code text) c2 slot.consumers
+    have s2 := same_sendReply c2 slot.lid (.err (.serverClosedChannel n code text))
+    have a2 := sendReply_alloc c2 slot.lid (.err (.serverClosedChannel n code text))
+    have l2 := fun lid (hl : lid ≠ slot.lid) =>
+      getLink_sendReply_ne c2 (Ne.symm hl) (.err (.serverClosedChannel n code text))
     split
     · rename_i c3 e heq2
       rw [heq2] at s2 a2 l2
       dsimp only at s2 a2 l2
       refine ⟨?_, ?_, ?_⟩
-      · show (dropSlotEnds c3 slot).st = _
-        rw [(same_dropSlotEnds _ _).st, s2.st, s1.st]; rfl
-      · show (dropSlotEnds c3 slot).alloc = _
-        rw [dropSlotEnds_alloc, a2, a1]; rfl
+      · rw [(same_dropSlotEnds _ _).st, s2.st, s1.st]; rfl
+      · rw [dropSlotEnds_alloc, a2, a1]; rfl
       · intro lid hl
-        show getLink (dropSlotEnds c3 slot) lid = getLink c lid
-        rw [getLink_dropSlotEnds_ne _ _ (Ne.symm hl), getLink_congr l2, l1 lid hl]; rfl
+        rw [getLink_dropSlotEnds_ne _ _ (Ne.symm hl), l2 lid hl, getLink_congr l1]; rfl
     · rename_i c3 heq2
       rw [heq2] at s2 a2 l2
       dsimp only at s2 a2 l2
@@ -745,7 +746,7 @@ theorem pcm_close_frame {c : Conn} {n : Nat} (code : Nat) (text dbg : Bytes) {sl
       · rw [(same_dropSlotEnds _ _).st, pushOut_st, s2.st, s1.st]; rfl
       · rw [dropSlotEnds_alloc, pushOut_alloc, a2, a1]; rfl
       · intro lid hl
-        rw [getLink_dropSlotEnds_ne _ _ (Ne.symm hl), getLink_pushOut, getLink_congr l2, l1 lid hl]; rfl
+        rw [getLink_dropSlotEnds_ne _ _ (Ne.symm hl), getLink_pushOut, l2 lid hl, getLink_congr l1]; rfl
 
 theorem process_close_ok {c : Conn} (hs : c.st = .steady) {n : Nat} (hn : n ≠ 0) (code : Nat)
     (text dc df : Bytes) {slot : Slot} (hslot : lookupN n c.slots = some slot)
